@@ -20,6 +20,11 @@ CHECKS = {
         text="Bounded model checking of the input space + trace validation: TLC enumerates every abstract string over each sub-alphabet up to a length bound, random soup, and every proper prefix / single-character edit of the seed programs; each input runs through generate_tokens, parse_string (exec, eval) and parse_file under a watchdog and TLC validates the recorded outcome trace (terminates; outcome class in {tree, SyntaxError*, TokenError}; never None).",
         note="Trusted: watchdog limits (5 s, re-run alone at 10 s before a hang is reported); class representatives stand for their character class; inputs longer than the bounds are covered only through the edit neighbourhood of the corpus.",
         ref="5/C03"),
+    "C04": dict(
+        technique="trace validation: flattened trees of the real parser checked by TLC against AstShape.tla (ASDL typing, ctx law, span law) + compile() oracle",
+        text="Every accepted input of the Python program space (GramGen), the corpus (all harvested inputs incl. xonsh) and the xonsh generators is parsed; TLC validates the flattened tree row by row against AstShape.tla: field kinds against the ASDL table generated from CPython's ast module, child categories, Store/Del/Load context law, complete spans with start<=end inside the source; compile() must not report a malformed tree and may reject semantically only if the written-out Python is rejected too.",
+        note="Trusted: ASDL table derived from the ast module docstrings; compile() of CPython 3.12.1; ast.unparse for the written-out Python. Rides on the other generators' bounds.",
+        ref="5/C04"),
     "C08": dict(
         technique="trace validation: real token streams checked by TLC against the TokStream.tla law",
         text="Every finished token stream of the real tokenizer on the TLC-generated input spaces (CharGen sub-alphabets, soup, corpus x layouts) is validated by TLC against TokStream.tla (text=slice, order, gaps only indentation/continuation, line closure, INDENT/DEDENT balance, single ENDMARKER); the first failing clause is named.",
